@@ -85,6 +85,11 @@ ASSUMPTIONS = [
     "Delta T/86400, also for returned times slightly outside 0..24 h; sidereal rate "
     "360.98564736629 deg/d (IAU 1982)",
     "season: the year labelling the returned instant is not asserted; years given as int",
+    "sensitivity (mutants/C14.json, applied on top of fixes_proposed/C14-*.diff, quick tier): 16 of "
+    "20 caught; missed: the final 'epoch -= corr' dropped (<= 2.5e-6 deg, below the 1e-5 stated), the "
+    "sign of the 0.0057183 aberration constant (2.7 s, inside every stated bound), a table constant "
+    "whose change the iteration undoes (equivalent), the setting correction taking the rising "
+    "declination (< 1e-4 deg after two iterations)",
 ]
 
 SEASONS = ["spring", "summer", "autumn", "winter"]
